@@ -17,14 +17,18 @@ import (
 // and the desired state consist of (inspected and diffed through the library,
 // not through the command under test). A desired state given as SQL is
 // materialised in a scratch file by the independent client first.
-func countChanges(tmp, db, desired string, hcl bool) (int, []string, error) {
+func countChanges(tmp, db, desired string, hcl bool, exclude string) (int, []string, error) {
 	ctx := context.Background()
 	cur, err := sqlclient.Open(ctx, "sqlite://"+db)
 	if err != nil {
 		return 0, nil, err
 	}
 	defer cur.Close()
-	from, err := cur.InspectSchema(ctx, "main", nil)
+	var iopts *schema.InspectOptions
+	if exclude != "" {
+		iopts = &schema.InspectOptions{Exclude: []string{exclude}}
+	}
+	from, err := cur.InspectSchema(ctx, "main", iopts)
 	if err != nil {
 		return 0, nil, err
 	}
